@@ -17,6 +17,7 @@
 package xds
 
 import (
+	"sort"
 	"time"
 
 	"go.uber.org/atomic"
@@ -50,4 +51,20 @@ func (s *DiscoveryServer) VerifPushState() (pending, processing, inflight int) {
 // VerifSetPushThrottle replaces the push semaphore of a server that has not been started yet.
 func (s *DiscoveryServer) VerifSetPushThrottle(n int) {
 	s.concurrentPushLimit = make(chan struct{}, n)
+}
+
+// verifAllClients returns the connections in a stable order (by connection id) so that the order
+// in which a push is enqueued for the connections does not depend on map iteration.
+func verifAllClients(s *DiscoveryServer) []*Connection {
+	out := make([]*Connection, 0, len(s.adsClients))
+	for _, c := range s.adsClients {
+		out = append(out, c)
+	}
+	sort.Slice(out, func(i, j int) bool {
+		if len(out[i].ID()) != len(out[j].ID()) {
+			return len(out[i].ID()) < len(out[j].ID())
+		}
+		return out[i].ID() < out[j].ID()
+	})
+	return out
 }
